@@ -176,8 +176,13 @@ def check(P, R):
             def _tell(e_):
                 # the write position of the buffer itself is its accumulated size (it is only ever appended to)
                 return isinstance(e_, ast.Call) and call_attr(e_) == 'tell' and not e_.args and isinstance(e_.func.value, ast.Name) and e_.func.value.id == body
+            tnode_ = g.nodes_for(test.test)[0] if g.nodes_for(test.test) else g.node_of_stmt(d.stmt)[0]
+
+            def _is_param(e_):
+                # the threshold: a parameter, possibly through a plain copy made before the loop
+                return isinstance(e_, ast.Name) and (e_.id in f.params or T.xsrc(f, e_, tnode_) in f.params)
             size_cmp = [p for p in cmpx if isinstance(p.ops[0], (ast.Gt, ast.GtE)) and (isinstance(p.left, ast.Name) or _tell(p.left))
-                        and isinstance(p.comparators[0], ast.Name) and p.comparators[0].id in f.params]
+                        and _is_param(p.comparators[0])]
             extra = names - flags - {p.left.id if isinstance(p.left, ast.Name) else body for p in size_cmp} - {p.comparators[0].id for p in size_cmp}
             if not size_cmp and cmpx and not any(isinstance(p.left, ast.Name) for p in cmpx):
                 R.undecided('C13.c', f, d.stmt, 'spill condition', f'`{short(test.test)}` measures the accumulated size in a way that has no recogniser')
@@ -260,9 +265,9 @@ def check(P, R):
         a_l = kw[0].value if kw else pos
         vals = []
         if isinstance(a_l, ast.Name) and fb_.rd.is_local(a_l.id):
-            vals = [d.value for d in fb_.rd.root_defs(cn, a_l.id)]
+            vals = [T.expand(fb_, d.value, d.node) if d.value is not None else None for d in fb_.rd.root_defs(cn, a_l.id)]
         elif a_l is not None:
-            vals = [a_l]
+            vals = [T.expand(fb_, a_l, cn)]
         ok = bool(vals) and all(v is not None and src(v) == 'self.config.max_body_size' for v in vals)
         R.ob('C13.a', fb_, c, ok, text='size limit argument = self.config.max_body_size on every path', detail='' if ok else
              f'the limit handed to the reader may be {[short(v) if v is not None else "?" for v in vals] or "missing"}: on that path the per-part check of _body_read is off - '
@@ -405,6 +410,22 @@ def check_get_body_string(P, R, rid):
         for n in pre:
             reach = gs.reachable_from(T.succ_by_label(n, 'true'))
             okp = okp or (cn not in reach and gs.exit not in reach)
+        if not okp:
+            # the decision may be kept in a flag: `too_large = declared > limit; if not too_large: <read>; ...; if too_large: raise`
+            def _is_pre(e_):
+                cp_ = compare_parts(e_)
+                return bool(cp_) and cp_[1] is ast.Gt and src(cp_[2]) == thr and isinstance(cp_[0], ast.Name)
+            def _is_pre_x(e_):     # the same comparison with the locals expanded (guard_atoms substitutes single definitions)
+                cp_ = compare_parts(e_)
+                return bool(cp_) and cp_[1] is ast.Gt and (src(cp_[2]) == thr or 'max_memfile_size' in src(cp_[2])) and 'len(' not in src(cp_[0])
+            not_over = any(_is_pre_x(e_) and not holds_ for (e_, holds_, _t) in T.guard_atoms(fs, cn))
+            refusing = []
+            for n in gs.nodes:
+                if n.kind == 'test' and isinstance(n.ast, ast.Name) and any(d.value is not None and _is_pre(d.value) for d in rs.at(n, n.ast.id)):
+                    reach = gs.reachable_from(T.succ_by_label(n, 'true'))
+                    if gs.exit not in reach and cn not in reach:
+                        refusing.append(n)
+            okp = not_over and bool(refusing)
         R.ob(rid, fs, c, okp, text='declared length above the threshold refused before reading', detail='' if okp else
              'a declared Content-Length above the threshold is not refused before the body is read into memory')
         # unknown length: read threshold + k, k >= 1
@@ -433,6 +454,14 @@ def check_get_body_string(P, R, rid):
         for n in post:
             reach = gs.reachable_from(T.succ_by_label(n, 'true'))
             okq = okq or gs.exit not in reach
+        if not okq and res:
+            for n in gs.nodes:
+                if n.kind == 'test' and isinstance(n.ast, ast.Name) and gs.can_reach(cn, n):
+                    defs_ = [d for d in rs.at(n, n.ast.id) if d.value is not None and gs.can_reach(cn, d.node)]
+                    if defs_ and all(compare_parts(d.value) and compare_parts(d.value)[1] is ast.Gt and src(compare_parts(d.value)[2]) == thr
+                                     and src(compare_parts(d.value)[0]) == f'len({res})' for d in defs_):
+                        reach = gs.reachable_from(T.succ_by_label(n, 'true'))
+                        okq = okq or gs.exit not in reach
         R.ob(rid, fs, c, okq, text=f'len(data) > {thr} refused after reading', detail='' if okq else
              'data longer than the threshold is not refused after the read')
     # the refusals go through _raise(BodySizeError(), RequestError)
